@@ -9,7 +9,8 @@
 (*   Orthogonal2: the orthogonal polar factor (IsOrthogonalOfS);               *)
 (*   Frame, FrameUp: orthonormal right-handed frame with third axis N, first   *)
 (*        axis along up x N (IsFrameS / IsFrameUpS);                           *)
-(*   Lookat: IsLookatS;   Slerp at t = 1/2: IsSlerpMidS.                       *)
+(*   Lookat: IsLookatS;   Slerp at t = 1/2: IsSlerpMidS;                       *)
+(*   QuatRat: rotations with rational matrices num / den (NearRat).            *)
 (* Input: IOEnv.C06_OBS (ndjson {id, a, arg, obs}); output: the rejected       *)
 (* records as ndjson {id, a, reason} in IOEnv.OUT.                             *)
 EXTENDS LinAlgebra, IOUtils, Json, SequencesExt
@@ -40,6 +41,9 @@ Verdict(o) ==
          [] o.a = "Frame" -> IF ~InRangeM(r.m_s) THEN "out-of-range" ELSE IF IsFrameS(r.m_s, g.n) THEN "ok" ELSE "not-a-right-handed-orthonormal-frame-of-N"
          [] o.a = "FrameUp" -> IF ~InRangeM(r.m_s) THEN "out-of-range" ELSE IF IsFrameUpS(r.m_s, g.n, g.up) THEN "ok" ELSE "not-the-frame-of-N-and-up"
          [] o.a = "Lookat" -> IF ~InRangeM(r.l_s) THEN "out-of-range" ELSE IF IsLookatS(r.l_s, r.p_s, g.eye, g.point, g.up) THEN "ok" ELSE "not-the-lookat-frame"
+         [] o.a = "QuatRat" ->
+              IF ~NearRatM(r.m_s, g.num, g.den) THEN "matrix-quaternion-matrix-is-not-the-same-rotation"
+              ELSE IF ~NearRatM(r.qm_s, g.num, g.den) \/ ~NearRatM(r.nm_s, g.num, g.den) THEN "matrix-of-quaternion-is-not-its-rotation" ELSE "ok"
          [] o.a = "Slerp" -> IF ~InRangeM(r.m_s) THEN "out-of-range" ELSE IF IsSlerpMidS(r.m_s, g.a, g.b) THEN "ok" ELSE "not-the-midpoint-rotation"
          [] OTHER -> "unknown-operation"
 
